@@ -18,7 +18,8 @@ RULE = ('generated programs over the full feature mask + shape templates, each u
         '(all-NoInject+NoWith and all-Ground always included); every predicate compared with the unannotated plan '
         'and with Sem.denote; non-trivial = some plan has different SQL text and a non-empty result; distinct by '
         '(program, assignment)')
-ASSUMPTIONS = ('records holding lists across a table boundary lose the JSON subtype on SQLite (excluded from generation)',)
+ASSUMPTIONS = ('records holding lists across a table boundary lose the JSON subtype on SQLite (excluded from generation)',
+               "SQLite capacity limits (64-table joins, parser stack depth) hit by a plan are skipped and counted, not judged")
 
 CHOICES = [(), ('NoInject',), ('With',), ('NoWith',), ('NoInject', 'With'), ('NoInject', 'NoWith'), ('Ground',)]
 
@@ -65,8 +66,8 @@ def run(ck):
           continue
         b0, b1 = M.norm_bag(base[p.name], p), M.norm_bag(res[p.name], p)
         kinds = sorted({a for part in vname[5:].split(';') if '=' in part for a in part.split('=')[1].split('+') if a != '-'})
-        if b1 is None and 'at most 64 tables' in res[p.name].get('message', ''):
-          ck.features['sqlite-join-limit-skipped'] += 1    # engine capacity limit of a fully inlined plan
+        if b1 is None and ('at most 64 tables' in res[p.name].get('message', '') or 'parser stack overflow' in res[p.name].get('message', '')):
+          ck.features['sqlite-capacity-limit-skipped'] += 1    # engine capacity limit (join width, nesting depth) of the plan
         elif b1 is None:
           ck.violation('c08:outcome:%s:%s' % (res[p.name]['kind'], '+'.join(kinds)),
                        'annotations %s: predicate %s no longer evaluates (%s: %s)' % (vname, p.name, res[p.name]['kind'], res[p.name].get('message', '')[:200]),
